@@ -169,8 +169,16 @@ func (g *G) sources(o srcOpts) influxql.Sources {
 		}
 		if o.subq && !g.Opt.NoSubq && o.depth > 0 && g.Rg.P(sp) {
 			g.B.P("(")
+			pInto := g.Opt.SubqInto
+			if pInto == 0 && !g.Opt.Simple {
+				pInto = 0.05
+			}
 			sub := g.selectStmt(func(c string) bool {
 				if c == "INTO" {
+					if g.Rg.P(pInto) {
+						g.feat("subquery.into")
+						return true
+					}
 					return false
 				}
 				return g.Rg.P(0.3)
